@@ -740,11 +740,49 @@ func runParts(c *core.Ctx) {
 		}
 		pr.schedule(r, order, withhold, rate, si%2 == 1)
 	}
+	pr.degenerateRoots(r, t)
 	if t.total >= 2 && len(pr.kinds) >= 3 && pr.hostileFirst >= 1 {
 		c.Nontrivial(fmt.Sprintf("p%x-%d", crypto.Keccak256(bz)[:8], sz))
 	}
 	if c.Index%250 == 1 {
 		c.Sample(map[string]interface{}{"case": "parts", "block": info, "part_size": sz, "parts": t.total, "orders": len(orders), "hostile_kinds": len(pr.kinds), "first_schedule_prefix": pr.sampleLog})
+	}
+}
+
+// degenerateRoots: a Byzantine proposer signs whatever part-set header it likes, also one whose root is empty or
+// not a hash at all (nothing between the wire and AddPart looks at the root's length). No part can prove
+// membership under such a root: every genuine part, with its genuine proof, without proof, and with a proof of
+// the wrong shape, must be refused.
+func (p *partsRun) degenerateRoots(r *rng.R, t *truth) {
+	roots := map[string][]byte{"nil": nil, "empty": {}, "one-byte": {byte(r.Intn(256))}, "31-bytes": r.Bytes(31)}
+	names := []string{"nil", "empty", "one-byte", "31-bytes"}
+	for _, name := range names {
+		ps, pan := safeNewFromHeader(types.PartSetHeader{Total: t.total, Hash: roots[name]})
+		if pan != nil || ps == nil {
+			p.c.Count("degenerate_root_header_refused", 1)
+			continue
+		}
+		for i := 0; i < t.total && i < 6; i++ {
+			for _, shape := range []string{"genuine-proof", "no-proof", "one-random-aunt"} {
+				part := &types.Part{Index: i, Bytes: append([]byte{}, t.bytes[i]...)}
+				switch shape {
+				case "genuine-proof":
+					part.Proof.Aunts = cpAunts(t.aunts[i])
+				case "one-random-aunt":
+					part.Proof.Aunts = [][]byte{r.Bytes(32)}
+				}
+				added, err, pan := safeAdd(ps, part)
+				p.c.Count("degenerate_root_deliveries", 1)
+				if pan != nil {
+					p.violation("addpart/panic-under-degenerate-root/"+name, fmt.Sprintf("AddPart panicked for part %d (%s) under a signed header with root %q: %v", i, shape, name, pan), nil)
+					return
+				}
+				if added {
+					p.violation("addpart/accepted-under-degenerate-root/"+name+"/"+shape, fmt.Sprintf("part %d of %d (%s) was accepted under a part-set header whose root is %s (%x): no proof can lead to it (err=%v)", i, t.total, shape, name, roots[name], err), nil)
+					return
+				}
+			}
+		}
 	}
 }
 
